@@ -172,18 +172,22 @@ Definition tcp_queues_knock (i : tcpin) : bool :=
 Definition udp_decoder_ports : list N := [53; 123; 1900; 5060; 161; 162]%N.
 
 (* a probe of the harness: source index, protocol (0 tcp, 1 udp, 2 icmp), destination port,
-   TCP flag byte *)
-Record probe := P { p_src : N; p_proto : N; p_port : N; p_flags : N }.
+   TCP flag byte, index of the sensor address probed *)
+Record probe := P { p_src : N; p_proto : N; p_port : N; p_flags : N; p_dst : N }.
 
 Definition src_ip (i : N) : N := (167772161 + i)%N.            (* 10.0.0.(1+i) *)
 Definition src_mac (i : N) : N := (2199023255553 + i)%N.       (* 02:00:00:00:00:(01+i) *)
 Definition dst_ip : N := 2130706433%N.                         (* 127.0.0.1 *)
 Definition dst_mac : N := 2199023255807%N.                     (* 02:00:00:00:00:ff *)
+(* the sensor's addresses on the interface (all behind the same hardware address):
+   127.0.0.1, 127.0.0.2, 192.0.2.9 *)
+Definition dst_ips : list N := [2130706433; 2130706434; 3221225993]%N.
+Definition dst_ip_of (i : N) : N := nth (N.to_nat i) dst_ips 0%N.
 
 Definition flag (fl bit : N) : bool := N.testbit fl bit.
 
 Definition knocks_of_probe (st : option sstate) (ackok : bool) (p : probe) : list knock :=
-  let mk k port := mkKnock k (src_mac (p_src p)) dst_mac (src_ip (p_src p)) dst_ip port in
+  let mk k port := mkKnock k (src_mac (p_src p)) dst_mac (src_ip (p_src p)) (dst_ip_of (p_dst p)) port in
   match p_proto p with
   | 0%N => if tcp_queues_knock (mkTcpIn true true ((p_port p =? 22)%N) (flag (p_flags p) 1)
                                         (flag (p_flags p) 4) (flag (p_flags p) 2) st true ackok)
@@ -204,6 +208,53 @@ Definition gk_eqb (g : group) (k : knock) : bool :=
 
 Definition rk_eqb (r : report) (k : knock) : bool :=
   ((r_smac r =? k_smac k) && (r_dmac r =? k_dmac k) && (r_sip r =? k_sip k) && (r_dip r =? k_dip k))%N.
+
+(* ---------------------------------------------------------------- the knock queue *)
+(* knockChan is a channel of capacity cap (100).  Every handler (one goroutine per UDP
+   datagram; the receive loop itself for ICMP and TCP) performs a BLOCKING send; the detector
+   receives one knock per loop iteration.  A schedule is any sequence of attempts:
+   QSend i = producer i runs its send (it completes only if the queue has room, otherwise the
+   producer stays blocked and may be scheduled again), QRecv t = the detector takes the head
+   of the queue at time t. *)
+Record qstate := mkQ {
+  q_pending : list (option knock);   (* producer i: Some k = its knock is not yet in the queue *)
+  q_queue : list knock;
+  q_done : list (knock * Z) }.       (* knocks received by the detector, in order, with the time *)
+
+Inductive qstep := QSend (i : nat) | QRecv (t : Z).
+
+Fixpoint clear_nth {A} (i : nat) (l : list (option A)) : list (option A) :=
+  match l, i with
+  | [], _ => []
+  | _ :: r, O => None :: r
+  | x :: r, S j => x :: clear_nth j r
+  end.
+
+Definition q_step (cap : nat) (st : qstate) (s : qstep) : qstate :=
+  match s with
+  | QSend i =>
+      match nth_error (q_pending st) i with
+      | Some (Some k) =>
+          if Nat.ltb (length (q_queue st)) cap
+          then mkQ (clear_nth i (q_pending st)) (q_queue st ++ [k]) (q_done st)
+          else st                                   (* blocked: nothing happens, nothing is lost *)
+      | _ => st
+      end
+  | QRecv t =>
+      match q_queue st with
+      | k :: r => mkQ (q_pending st) r (q_done st ++ [(k, t)])
+      | [] => st
+      end
+  end.
+
+Definition q_init (ks : list knock) : qstate := mkQ (map Some ks) [] [].
+Definition q_run (cap : nat) (steps : list qstep) (st : qstate) : qstate := fold_left (q_step cap) steps st.
+
+Fixpoint osomes {A} (l : list (option A)) : list A :=
+  match l with [] => [] | Some x :: r => x :: osomes r | None :: r => osomes r end.
+
+(* the schedule has run to completion: every producer has sent, the queue is drained *)
+Definition q_complete (st : qstate) : Prop := osomes (q_pending st) = [] /\ q_queue st = [].
 
 (* ---------------------------------------------------------------- from the frame to the knock *)
 (* The receive path byte by byte: ethernet.Parse, ipv4.Parse, then udp.Unmarshal / icmp.Parse /
